@@ -22,6 +22,33 @@ REPO = Path("/repo")
 
 # (property, name, relative file, old text, new text)
 MUTANTS = [
+    # ---- C04
+    ("C04", "revert_enum_width_fix", "src/fcp/encoding.py",
+     "            return int(fcp.get_enum(type.name).unwrap().get_packed_size())",
+     "            return int(2 ** ceil(log2(fcp.get_enum(type.name).unwrap().get_packed_size())))"),
+    ("C04", "drop_bitstart_reset", "src/fcp/encoding.py",
+     "        self.encoding = []\n        self.bitstart = 0\n\n        self._generate(",
+     "        self.encoding = []\n\n        self._generate("),
+    ("C04", "drop_encoding_reset", "src/fcp/encoding.py",
+     "        self.encoding = []\n        self.bitstart = 0\n\n        self._generate(",
+     "        self.bitstart = 0\n\n        self._generate("),
+    ("C04", "encoding_cleared_in_place", "src/fcp/encoding.py",
+     "        self.encoding = []\n        self.bitstart = 0\n\n        self._generate(",
+     "        self.encoding.clear()\n        self.bitstart = 0\n\n        self._generate("),
+    ("C04", "declaration_order", "src/fcp/encoding.py",
+     "for field in sorted(struct.fields, key=lambda field: field.field_id):", "for field in struct.fields:"),
+    ("C04", "options_sticky_when_no_block", "src/fcp/encoding.py",
+     "        if isinstance(field.type, StructType):\n            self._generate(",
+     "        if fields:\n            self._last_fields = fields\n        elif len(self.encoding) == 0:\n            fields = getattr(self, '_last_fields', {})\n        if isinstance(field.type, StructType):\n            self._generate("),
+    ("C04", "signal_lookup_cached_per_encoder", "src/fcp/encoding.py",
+     "        fields: Dict[str, Any] = (\n            extension.get_signal(field.name)",
+     "        self._sigcache = getattr(self, '_sigcache', {})\n        if field.name not in self._sigcache:\n            self._sigcache[field.name] = extension.get_signal(field.name)\n        fields: Dict[str, Any] = (\n            self._sigcache[field.name]"),
+    ("C04", "unroll_size_minus_1", "src/fcp/encoding.py",
+     "        for i in range(type.size):\n            derived_field = copy(field)", "        for i in range(max(type.size - 1, 1)):\n            derived_field = copy(field)"),
+    ("C04", "unroll_mutates_field", "src/fcp/encoding.py",
+     "            derived_field = copy(field)\n", "            derived_field = field if type.size == 1 else copy(field)\n"),
+    ("C04", "nested_prefix_dropped_at_depth2", "src/fcp/encoding.py",
+     '                prefix=prefix + field.name + "::",', '                prefix=(prefix if prefix.count("::") >= 1 else prefix + field.name + "::"),'),
     # ---- C16
     ("C16", "revert_read_bytes_fix", "src/fcp/serde.py",
      "        return [self.read_word(8) for _ in range(bytes)]\n",
